@@ -327,6 +327,9 @@ UNITS = {
             I(RAW, r'^impl < T , A : Allocator > RawTable < T , A >$', 'clear', impl='RawTable<T, A>|<T, A: Allocator>', key='RawTable::clear'),
             I(RAW, r'^impl < T , A : Allocator > RawTable < T , A >$', 'drain_iter_from', impl='RawTable<T, A>|<T, A: Allocator>', key='RawTable::drain_iter_from'),
             dict(I(RAW, r"^impl < T , A : Allocator > Drop for RawDrain < '_ , T , A >$", 'drop', impl='RawDrain<T, A>|<T, A: Allocator>', key='RawDrain::drop'), in_drain=True),
+            I(RAW, r'^impl < T , A : Allocator > RawTable < T , A >$', 'into_iter_from', impl='RawTable<T, A>|<T, A: Allocator>', key='RawTable::into_iter_from'),
+            I(RAW, r'^impl < T , A : Allocator > IntoIterator for RawTable < T , A >$', 'into_iter', impl='RawTable<T, A>|<T, A: Allocator>', key='RawTable::into_iter'),
+            I(RAW, r'^impl < T , A : Allocator > Drop for RawIntoIter < T , A >$', 'drop', impl='RawIntoIter<T, A>|<T, A: Allocator>', key='RawIntoIter::drop'),
         ],
     ),
     # C11: clone_from_impl: control bytes verbatim, every FULL bucket a clone of the source's
@@ -1357,6 +1360,12 @@ def dropglue_rules(toks, i, out, hit):
         out.extend([T('self', t.gap), T('.', ''), T('iter_drop_elements', ''), T('(', ''), T(')', '')])
         hit('R32_drain_iterator_drop_tied_to_its_table')
         return i + 7
+    # R42: `alloc.deallocate(P, L)` (RawIntoIter::drop) -> `dealloc_of(&mut self.iter.mem, alloc, P, L)`
+    if t.text == 'alloc' and seq(i + 1, '.', 'deallocate', '('):
+        out.extend([T('dealloc_of', t.gap), T('(', ''), T('&', ''), T('mut', ''), T('self'), T('.', ''), T('iter', ''), T('.', ''), T('mem', ''), T(',', ''), T('alloc')])
+        out.append(T(',', ''))
+        hit('R42_deallocate_recorded_on_iterator_memory')
+        return i + 4
     if t.text == '.' and seq(i + 1, 'as_ptr', '(', ')', '.', 'copy_from_nonoverlapping', '('):
         c = extract._find_close(toks, i + 6)
         args = extract._split_args(toks[i + 7:c])
